@@ -73,6 +73,17 @@ func script(seed int64, idx int) {
 	cls := []uint8{0, 1, 15, 200}
 	var txs []*evmsim.Tx
 	exp := map[ethcommon.Hash]*expectation{}
+	sib := map[ethcommon.Hash]*expectation{} // second core message of the same transaction (own consistency level)
+	all := func() []*expectation {
+		var out []*expectation
+		for _, e := range exp {
+			out = append(out, e)
+		}
+		for _, e := range sib {
+			out = append(out, e)
+		}
+		return out
+	}
 	faults := false
 	restarted := false // a restart provoked by the dedicated scenario (still judged for exactly-once)
 	allowFaults := rng.Intn(3) == 0
@@ -95,8 +106,13 @@ func script(seed int64, idx int) {
 					lk = "core"
 				}
 				tx.Logs = []*evmsim.LogSpec{mkLog(lk, cl)}
-				if rng.Intn(3) == 0 { // a second log of another address with the same topic in the same tx
+				switch rng.Intn(4) {
+				case 0: // a second log of another address with the same topic in the same tx
 					tx.Logs = append(tx.Logs, mkLog("foreign-address", cl))
+				case 1: // the transaction publishes two messages, the second with a consistency level of its own
+					if kind == "core" {
+						tx.Logs = append(tx.Logs, mkLog("core", cls[rng.Intn(len(cls))]))
+					}
 				}
 				n := s.Head + 1
 				blk = s.Include(tx, n)
@@ -105,6 +121,10 @@ func script(seed int64, idx int) {
 			txs = append(txs, tx)
 			if kind == "core" {
 				exp[tx.Hash] = &expectation{tx: tx, log: tx.Logs[0], block: blk, note: fmt.Sprintf("cl=%d then head +%d", cl, jump)}
+				if len(tx.Logs) == 2 && tx.Logs[1].Note == "core" {
+					sib[tx.Hash] = &expectation{tx: tx, log: tx.Logs[1], block: blk, note: fmt.Sprintf("second message of the transaction, cl=%d", tx.Logs[1].CL)}
+					vlib.CCount("transactions_with_two_messages", 1)
+				}
 			}
 			tr(fmt.Sprintf("mine %s tx=%x cl=%d in block %d", kind, tx.Hash[:4], cl, blk.Number))
 			vlib.CCount("txs_"+kind, 1)
@@ -201,7 +221,7 @@ func script(seed int64, idx int) {
 				}
 				_, nb = s.ReplaceBlock(tx.Block.Number, true)
 			})
-			for _, e := range exp {
+			for _, e := range all() {
 				if e.tx.Block == nil {
 					e.block = nil
 				} else if e.tx.Block != e.block {
@@ -241,7 +261,7 @@ func script(seed int64, idx int) {
 			vlib.CCount("txs_core", 1)
 			h.Quiesce(3, 20*time.Second)
 			sim.Mutate("remine-later", func(s *evmsim.Sim) { _, nb = s.RemineLater(tx, d, newFirst) })
-			for _, x := range exp {
+			for _, x := range all() {
 				if x.tx.Block == nil {
 					x.block = nil
 				} else if x.tx.Block != x.block {
@@ -343,7 +363,7 @@ func script(seed int64, idx int) {
 				_, nb = s.ReplaceBlock(tx.Block.Number, move)
 			})
 			if did {
-				for _, e := range exp {
+				for _, e := range all() {
 					if e.tx.Block == nil {
 						e.block = nil
 					} else if e.tx.Block != e.block {
@@ -396,7 +416,7 @@ func script(seed int64, idx int) {
 	// ---- forwarded exactly once, however far the head jumped (scripts without injected RPC errors)
 	arr := h.ArrivalsCopy()
 	if !faults && (atomicLoad(&h.RunExits) == 0 || restarted) {
-		for _, e := range exp {
+		for _, e := range all() {
 			if e.block == nil {
 				continue
 			}
